@@ -826,7 +826,9 @@ fn conc_node() {
                 o.put(&json!({"case": ci, "held": held, "k": k, "stuck": false, "other_ran_through": through,
                               "pre": pre, "a": reqs[0], "b": reqs[1],
                               "ra": strip(res[0].as_ref().unwrap()), "rb": strip(res[1].as_ref().unwrap()),
-                              "post": nl::project(&fx), "sab": seqs[0], "sba": seqs[1]}));
+                              "post": nl::project(&fx), "sab": seqs[0], "sba": seqs[1],
+                              // both requests have returned: is what they acknowledged durable?
+                              "rdiff": nl::restart_fields(&fx)}));
                 runs += 1;
             }
         }
